@@ -120,7 +120,7 @@ def judge_collected(ctx, label, tb, contexts, res, wb, flags_only=False):
             covered = np.array([v is not None for v in e])
             if flags_only:
                 continue
-            for name, src, have in (("data", tb.data[cr.stream_id], True), ("tinp", np.array(tb.secs), tb.with_time),
+            for name, src, have in (("data", tb.data[cr.stream_id], True), ("tinp", np.array([P.us(v) for v in tb.secs], dtype="int64"), tb.with_time),
                                     ("zinp", tb.z, tb.with_z), ("lat", tb.lat, tb.with_pos), ("lon", tb.lon, tb.with_pos)):
                 arr = getattr(cr, name)
                 if not have or (name == "data" and MASKED_INPUT):
@@ -128,13 +128,13 @@ def judge_collected(ctx, label, tb, contexts, res, wb, flags_only=False):
                 try:
                     a = np.ma.getdata(arr)
                     if name == "tinp":
-                        if a.dtype.kind == "M":
-                            unit = np.datetime_data(a.dtype)[0]
-                            a = np.asarray(a).astype("int64") // {"s": 1, "ms": 10 ** 3, "us": 10 ** 6, "ns": 10 ** 9}.get(unit, 1)
-                        else:
-                            a = np.asarray(a)
+                        # (compared as whole microseconds since the epoch)
+                        a = np.array([-1 if m_ else v_ for v_, m_ in zip(P._times_to_secs(np.ma.getdata(arr)), np.ma.getmaskarray(arr).reshape(-1))],
+                                     dtype="int64") if np.ma.getmaskarray(arr).any() else np.array(P._times_to_secs(np.ma.getdata(arr)), dtype="int64")
                     # (Python scalars compare exactly: an int64 id beyond 2**53 differs from its rounded float64)
-                    ok = a.shape == (tb.n,) and all(a[i].item() == np.asarray(src)[i].item() for i in range(tb.n) if covered[i]) and not any(
+                    tol_ = 1 if name == "tinp" else 0  # (instants: whole microseconds, +-1 for float epoch carriers)
+                    ok = a.shape == (tb.n,) and all(abs(a[i].item() - np.asarray(src)[i].item()) <= tol_ if tol_ else a[i].item() == np.asarray(src)[i].item()
+                                                    for i in range(tb.n) if covered[i]) and not any(
                         np.ma.getmaskarray(arr)[i] for i in range(tb.n) if covered[i])
                 except Exception:  # noqa: BLE001
                     ok = False
@@ -288,6 +288,25 @@ def run(ctx) -> None:
                             judge_collected(ctx, f"{fe}:half-second-bounds", tb, ctxs, res, wb)
                             ctx.count("c06.half_second_bound_collections")
                             ctx.case(f"half-second-bounds|{fe}|{sorted(opts)}|n{n}|cut{cut}|{order}")
+            # (b2') instants and bounds with sub-millisecond parts: a row 0.4 ms before a bound is before it
+            for fe, opts in (("numpy-dict", {}), ("pandas", {}), ("netcdf-file", {}), ("xarray-ds", {})):
+                for n in (4, 7):
+                    secs_ = [P.T0 + k + (0.9996 if k % 2 else 0.0) for k in range(n)]
+                    tb = P.Table(n, streams=("v1",), secs=secs_, with_pos=False)
+                    for cut in (P.T0 + 2, P.T0 + 2.0003, P.T0 + 1.9998):
+                        for order in ((0, 1), (1, 0)):
+                            basec = [{"window": (None, cut), "streams": {"v1": [("qartod", "vf_probe_test", {"tag": 1})]}},
+                                     {"window": (cut, None), "streams": {"v1": [("qartod", "vf_probe_test", {"tag": 2})]}}]
+                            ctxs = [basec[k] for k in order]
+                            res, err = P.run_frontend(fe, tb, P.build_config(ctxs), scratch, opts)
+                            wb = {"kind": "collect", "frontend": fe, "opts": opts, "table": tb.describe(), "contexts": core.jsonable(ctxs),
+                                  "arrival": f"config order {list(order)}", "note": "instants 0.4 ms before whole seconds, bound near one of them"}
+                            if err is not None:
+                                ctx.violation(f"C06:{fe}:sub-ms:run-raised:{type(err).__name__}@{P.client_where(err)}", {**wb, "error": repr(err)[:300]})
+                                continue
+                            judge_collected(ctx, f"{fe}:sub-ms", tb, ctxs, res, wb)
+                            ctx.count("c06.sub_millisecond_collections")
+                            ctx.case(f"sub-ms|{fe}|n{n}|{cut - P.T0}|{order}")
             # (b3) rows that are not in time order (a window then covers scattered rows), frames whose index labels repeat, and
             #      two records of equal length and equal first / last instant run one after the other with the same windows
             for fe, opts in (("pandas", {}), ("pandas", {"index": "duplicated"}), ("pandas", {"index": "constant"}), ("numpy-dict", {}),
